@@ -256,6 +256,107 @@ Section ListHistory.
   Qed.
 End ListHistory.
 
+(* ---- several live lists: a list made by filter / map from another one shares no state with it ---- *)
+
+Section MultiList.
+  Variable A : Type.
+  Variable emb : A -> value.
+  Variable aeqb : A -> A -> bool.
+  Hypothesis emb_eq : forall a b, rt_eq (emb a) (emb b) = aeqb a b.
+
+  (* a register file of lists; register r out of range reads as the empty list and ignores writes *)
+  Inductive mop :=
+  | MOn (r : nat) (op : lop A)                          (* an operation of the single-list history on register r *)
+  | MFilter (dst src : nat) (p : A -> bool)             (* dst = filter(src, p) *)
+  | MMap (dst src : nat) (f : A -> A).                  (* dst = map(src, f) *)
+
+  Definition m_step (op : mop) (regs : list (list A)) : list (list A) * obs A :=
+    match op with
+    | MOn r o => let lo := l_step A aeqb o (nth r regs []) in (l_set_nat regs r (fst lo), snd lo)
+    | MFilter dst src p => (l_set_nat regs dst (filter p (nth src regs [])), ONone A)
+    | MMap dst src f => (l_set_nat regs dst (map f (nth src regs [])), ONone A)
+    end.
+
+  Fixpoint m_run (ops : list mop) (regs : list (list A)) : list (list A) * list (obs A) :=
+    match ops with
+    | [] => (regs, [])
+    | op :: ops' => let (regs', o) := m_step op regs in let (regs'', os) := m_run ops' regs' in (regs'', o :: os)
+    end.
+
+  Inductive rmop :=
+  | MROn (r : nat) (op : rlop)
+  | MRFilter (dst src : nat) (p : value -> bool)
+  | MRMap (dst src : nat) (f : value -> value).
+
+  Definition rt_mstep (op : rmop) (regs : list value) : res (list value * value) :=
+    match op with
+    | MROn r o => rbind (rt_lstep o (nth r regs (VList []))) (fun lo => Ok (replace_nth r (fst lo) regs, snd lo))
+    | MRFilter dst src p => rbind (rt_list_filter p (nth src regs (VList []))) (fun l' => Ok (replace_nth dst l' regs, VLuaNil))
+    | MRMap dst src f => rbind (rt_list_map f (nth src regs (VList []))) (fun l' => Ok (replace_nth dst l' regs, VLuaNil))
+    end.
+
+  Fixpoint rt_mrun (ops : list rmop) (regs : list value) : res (list value * list value) :=
+    match ops with
+    | [] => Ok (regs, [])
+    | op :: ops' =>
+        rbind (rt_mstep op regs) (fun ro => rbind (rt_mrun ops' (fst ro)) (fun r => Ok (fst r, snd ro :: snd r)))
+    end.
+
+  Inductive mop_rel : mop -> rmop -> Prop :=
+  | mrel_on : forall r o ro, op_rel A emb o ro -> mop_rel (MOn r o) (MROn r ro)
+  | mrel_filter : forall dst src p pv, (forall a, pv (emb a) = p a) -> mop_rel (MFilter dst src p) (MRFilter dst src pv)
+  | mrel_map : forall dst src f fv, (forall a, fv (emb a) = emb (f a)) -> mop_rel (MMap dst src f) (MRMap dst src fv).
+
+  Definition rep_regs (regs : list (list A)) : list value := map (rep_list A emb) regs.
+
+  Lemma nth_rep_regs : forall r regs, nth r (rep_regs regs) (VList []) = rep_list A emb (nth r regs []).
+  Proof. intros. unfold rep_regs. change (VList []) with (rep_list A emb []). apply map_nth. Qed.
+
+  Lemma replace_rep_regs : forall r l regs,
+    replace_nth r (rep_list A emb l) (rep_regs regs) = rep_regs (l_set_nat regs r l).
+  Proof. intros. unfold rep_regs. apply (replace_nth_map (list A) (rep_list A emb)). Qed.
+
+  Lemma multi_step_refines : forall op rop regs, mop_rel op rop ->
+    rt_mstep rop (rep_regs regs) = Ok (rep_regs (fst (m_step op regs)), emb_obs A emb (snd (m_step op regs))).
+  Proof.
+    intros op rop regs H. destruct H; cbn [rt_mstep m_step fst snd]; rewrite nth_rep_regs.
+    - rewrite (list_step_refines A emb aeqb emb_eq o ro _ H). cbn [rbind fst snd].
+      rewrite replace_rep_regs. reflexivity.
+    - rewrite (list_filter_refines A emb pv p) by assumption. cbn [rbind]. rewrite replace_rep_regs. reflexivity.
+    - rewrite (list_map_refines A emb A emb fv f) by assumption. cbn [rbind].
+      change (VList (map emb (map f (nth src regs [])))) with (rep_list A emb (map f (nth src regs []))).
+      rewrite replace_rep_regs. reflexivity.
+  Qed.
+
+  (* every history over several live lists *)
+  Theorem multi_history_refines : forall ops rops regs, Forall2 mop_rel ops rops ->
+    rt_mrun rops (rep_regs regs) =
+    Ok (rep_regs (fst (m_run ops regs)), map (emb_obs A emb) (snd (m_run ops regs))).
+  Proof.
+    intros ops rops regs H. revert regs. induction H as [|op rop ops rops Hop _ IH]; intros regs; [reflexivity|].
+    cbn [rt_mrun m_run]. rewrite (multi_step_refines op rop regs Hop). cbn [rbind fst snd].
+    destruct (m_step op regs) as [regs' o]. cbn [fst snd]. rewrite IH.
+    destruct (m_run ops regs') as [regs'' os]. reflexivity.
+  Qed.
+
+  Lemma nth_l_set_nat_other : forall (X : Type) (l : list X) r r' x d, r' <> r -> nth r' (l_set_nat l r x) d = nth r' l d.
+  Proof.
+    induction l as [|y l IH]; intros [|r] [|r'] x d H; simpl; try reflexivity; try congruence.
+    apply IH. congruence.
+  Qed.
+
+  (* INDEPENDENCE (frame property of the plain model, hence -- by the refinement above -- of the run-time
+     library): an operation on register r, and building register dst by filter / map from src, leave every
+     other register as it was.  In particular the result of filter / map is a NEW list: later mutations of
+     the source do not show through it and vice versa. *)
+  Theorem multi_step_frame : forall op regs r',
+    (match op with MOn r _ => r' <> r | MFilter dst _ _ | MMap dst _ _ => r' <> dst end) ->
+    nth r' (fst (m_step op regs)) [] = nth r' regs [].
+  Proof.
+    intros [r o|dst src p|dst src f] regs r' H; cbn [m_step fst]; apply nth_l_set_nat_other; exact H.
+  Qed.
+End MultiList.
+
 (* ------------------------------------------------------------------------------------------------ *)
 (* dicts and sets: Lua tables keyed by tostring(key)                                                 *)
 
